@@ -18,6 +18,7 @@ func init() {
 const pkgBRInfo = "pkg/scheduler/api/bindrequest_info"
 
 func runC12(c *Ctx) {
+	runC12ClaimName(c)
 	runC12NodePoolLabels(c)
 	borrow(c, "O6", "C11", "O4", "a recovered panic is reported as a failed attempt", "the status written for the hand-off must reflect the outcome of the attempt")
 
@@ -385,4 +386,57 @@ func runC12NodePoolLabels(c *Ctx) {
 		c.Check(merged, "O7", "PROV", funcKey(fn)+": the request's labels include the node-pool labels", instrPos(in), "labels[k] = v for every node-pool label (or maps.Copy(labels, poolLabels))", "the labels written on the BindRequest do not receive the node-pool labels (e.g. the copy goes the other way): a shard's own requests no longer match its selector, a request for a deleted node is never cleaned up and its pod can never be re-bound")
 	}
 	c.Floor("O7", "PROV BindRequest label stores", n, 1)
+}
+
+// C12-O8 (PROV): the devices promised by an in-flight BindRequest are reserved under the claim OBJECT's name. A
+// BindRequest names a claim by the pod-level reference (pod.spec.resourceClaims[].name); the ResourceClaim object has
+// another name whenever it was generated from a template. assumePendingClaim resolves the reference
+// (GetResourceClaimName) and must look the claim up under the resolved name: a lookup under the reference name fails,
+// is only logged by the caller, and the devices of a pod that is being bound look free to the next pod.
+func runC12ClaimName(c *Ctx) {
+	fn := c.Anchor("O8", "pkg/scheduler/plugins/dynamicresources", "draPlugin", "assumePendingClaim")
+	if fn == nil {
+		return
+	}
+	n := 0
+	for _, in := range instrsIn(fn, isInvokeNamed("Get")) {
+		args := in.(ssa.CallInstruction).Common().Args
+		if len(args) < 2 {
+			continue
+		}
+		n++
+		resolved := false
+		for _, o := range phiLeaves(args[1]) {
+			t := termOf(o)
+			if t.contains(func(x *Term) bool { return x.Op == "call" && x.Fn != nil && x.Fn.Name() == "GetResourceClaimName" }) {
+				resolved = true
+			}
+		}
+		fromRef := termOf(args[1]).contains(func(x *Term) bool { return x.Op == "param" && x.V == ssa.Value(fn.Params[1]) }) && termOf(args[1]).lastField() == "Name"
+		c.Check(resolved && !fromRef, "O8", "PROV", funcKey(fn)+": the claim is looked up under the resolved ResourceClaim name", instrPos(in), trunc(termOf(args[1]).String(), 100),
+			"the claim of an in-flight BindRequest is looked up under "+trunc(termOf(args[1]).String(), 80)+" instead of the name GetResourceClaimName resolved: for a template-generated claim the lookup fails (only logged) and the devices promised to the pod being bound are handed to another pod")
+	}
+	c.Floor("O8", "PROV claim lookups", n, 1)
+}
+
+// phiLeaves: the non-φ values a value can take (through any nest of φ-nodes, loops included).
+func phiLeaves(v ssa.Value) []ssa.Value {
+	var out []ssa.Value
+	seen := map[ssa.Value]bool{}
+	var walk func(x ssa.Value)
+	walk = func(x ssa.Value) {
+		if seen[x] {
+			return
+		}
+		seen[x] = true
+		if ph, ok := x.(*ssa.Phi); ok {
+			for _, e := range ph.Edges {
+				walk(e)
+			}
+			return
+		}
+		out = append(out, x)
+	}
+	walk(v)
+	return out
 }
